@@ -12,6 +12,8 @@ MCData == { D("h1", 32, "raw", "h1", 32, {"sha256"}), D("h2", 32, "raw", "h2", 3
             D("p1", 1006, "pem", "c1", 700, {"x509"}), D("p3", 1275, "pem", "c3", 900, {"x509"}),
             D("p1b", 1070, "pem", "c1", 700, {"x509"}), D("p3n", 1276, "pem", "c3", 900, {"x509"}),
             D("s1", 20, "raw", "s1", 20, {"sha1"}), D("u1", 40, "raw", "u1", 40, {"bogus"}) }
+(* reduced universe for the deepest exhaustive bound *)
+MCDataSmall == {x \in MCData : x.id \in {"h1", "h31", "c1", "c3", "p1", "s1", "u1"}}
 MCInit == Init /\ hist = <<>>
 MCNext == Len(hist) < Depth /\ Next /\ hist' = Append(hist, last')
 MCSpec == MCInit /\ [][MCNext]_<<vars, hist>>
